@@ -111,6 +111,11 @@ class WaveTable(Obligation):
         u = H.mod(R.UM)
         d = R.flat(out)
         pat = out['pattern']
+        if self.heavy:
+            from .C09 import FORM
+            call = getattr(u, pat + '_call')
+            d['F_pl'] = FORM[pat] * call(out['pl'], inst)
+            d['F_pr'] = FORM[pat] * call(out['pr'], inst)
         # fan formulas evaluated on the tail characteristic
         xd0, t = out['xd0'], out['t']
         if pat[0] == 'R':
@@ -135,8 +140,17 @@ class WaveTable(Obligation):
             cx.eq('%s X[%d] = xd0 + t V[%d]' % (pat, i, i), Xr[i], cx['xd0'] + cx['t'] * Vr[i])
         if not self.heavy:
             return
+        # strictly monotone wave curves (C17.riemann.mono) + F(px) = 0 give the order of the star pressure and the data
+        # pressures as instances; they are what makes the ordering of the wave speeds provable
+        mono = None
+        if cx.symbolic and 'F_pl' in cx:
+            px = cx['px']
+            for Fv, p0 in ((cx['F_pl'], cx['pl']), (cx['F_pr'], cx['pr'])):
+                inst = ((Fv < 0) & (p0 < px)) | ((Fv > 0) & (p0 > px)) | ((Fv == 0) & (p0 == px))
+                mono = inst if mono is None else (mono & inst)
+            mono = mono & (px > 0)
         for i in range(n - 1):
-            cx.lt('%s wave speeds ordered: V[%d] < V[%d]' % (pat, i, i + 1), Vr[i], Vr[i + 1])
+            cx.le('%s wave speeds ordered: V[%d] <= V[%d]' % (pat, i, i + 1), Vr[i], Vr[i + 1], when=mono)
         if pat[0] == 'R':
             cx.eq(pat + ' left fan tail density = star density', cx['Ltail_density'], cx['rx1'])
             cx.eq(pat + ' left fan tail pressure = star pressure', cx['Ltail_pressure'], cx['px'])
